@@ -15,7 +15,11 @@ Transforms (each is exact for Python/NumPy semantics, including floating point):
   T3 rename-locals  every local variable v of a function -> v_mm   (parameters, globals, attributes untouched)
   T4 return-temp    return e -> _mm_ret = e; return _mm_ret
   T5 if-swap        if c: A else: B -> if not c: B else: A        (only when both arms are present and no elif)
-  T6 kw-literal     numeric literal spelling: 1 -> 1 (unchanged) ; x ** 0.5 kept ; (reserved)
+  T6 add-swap       a + b -> b + a            (only when an operand is visibly numeric: list/str + is not commutative)
+  T7 shape-len      E.shape[0] -> len(E)
+  T8 chain-split    a <= x <= b -> a <= x and x <= b      (pure x)
+  T9 else-wrap      if c: ...; return A  REST -> if c: ...; return A else: REST
+  T10 else-unwrap   the converse
 """
 from __future__ import annotations
 
@@ -48,12 +52,118 @@ class MultSwap(ast.NodeTransformer):
         return node
 
 
+PURE_CALLS = {"len", "int", "float", "abs", "min", "max", "range", "bool"}
+PURE_NP = {"log", "sqrt", "exp", "sum", "abs", "zeros", "ones", "arange", "cumsum", "diff", "maximum", "minimum", "argmax", "argmin", "max", "min", "mean", "round", "ceil", "floor", "log2", "repeat", "array", "asarray", "all", "any", "where", "flatnonzero", "concatenate", "column_stack", "full", "isnan", "eye", "square", "power"}
+
+
 def _pure(e):
-    """no side effects and no evaluation-order dependence: names, constants, attributes, subscripts, arithmetic"""
+    """no side effects and no evaluation-order dependence: names, constants, attributes, subscripts, arithmetic and
+    calls of side-effect-free builtins / numpy functions"""
     for n in ast.walk(e):
-        if isinstance(n, (ast.Call, ast.Await, ast.Yield, ast.YieldFrom, ast.NamedExpr, ast.Lambda, ast.ListComp, ast.GeneratorExp, ast.DictComp, ast.SetComp)):
+        if isinstance(n, ast.Call):
+            f = n.func
+            ok = (isinstance(f, ast.Name) and f.id in PURE_CALLS) or (isinstance(f, ast.Attribute) and isinstance(f.value, ast.Name) and f.value.id == "np" and f.attr in PURE_NP)
+            if not ok:
+                return False
+        if isinstance(n, (ast.Await, ast.Yield, ast.YieldFrom, ast.NamedExpr, ast.Lambda, ast.ListComp, ast.GeneratorExp, ast.DictComp, ast.SetComp)):
             return False
     return True
+
+
+def _numeric_looking(e):
+    """an operand that cannot be a list/tuple/str: a numeric literal, a negation, or arithmetic other than +"""
+    if isinstance(e, ast.Constant):
+        return isinstance(e.value, (int, float)) and not isinstance(e.value, bool)
+    if isinstance(e, ast.UnaryOp) and isinstance(e.op, ast.USub):
+        return True
+    if isinstance(e, ast.BinOp) and isinstance(e.op, (ast.Sub, ast.Div, ast.Pow, ast.FloorDiv, ast.Mod)):
+        return True
+    if isinstance(e, ast.Call) and isinstance(e.func, ast.Attribute) and isinstance(e.func.value, ast.Name) and e.func.value.id == "np" and e.func.attr in ("log", "sqrt", "exp", "sum", "abs", "log2"):
+        return True
+    if isinstance(e, ast.Call) and isinstance(e.func, ast.Name) and e.func.id in ("len", "int", "float", "abs"):
+        return True
+    return False
+
+
+class AddSwap(ast.NodeTransformer):
+    """a + b -> b + a where an operand is visibly numeric (list/str concatenation is not commutative)"""
+
+    def visit_BinOp(self, node):
+        self.generic_visit(node)
+        if isinstance(node.op, ast.Add) and _pure(node.left) and _pure(node.right) and (_numeric_looking(node.left) or _numeric_looking(node.right)):
+            node.left, node.right = node.right, node.left
+        return node
+
+
+class ShapeLen(ast.NodeTransformer):
+    """E.shape[0] -> len(E)   (ndarray, Series and DataFrame alike)"""
+
+    def visit_Subscript(self, node):
+        self.generic_visit(node)
+        if isinstance(node.value, ast.Attribute) and node.value.attr == "shape" and isinstance(node.slice, ast.Constant) and node.slice.value == 0 and isinstance(node.ctx, ast.Load) and _pure(node.value.value):
+            return ast.Call(func=ast.Name(id="len", ctx=ast.Load()), args=[node.value.value], keywords=[])
+        return node
+
+
+class ChainSplit(ast.NodeTransformer):
+    """a <= x <= b -> a <= x and x <= b   (x evaluated twice: only for pure x)"""
+
+    def visit_Compare(self, node):
+        self.generic_visit(node)
+        if len(node.ops) == 2 and all(_pure(c) for c in [node.left] + node.comparators):
+            a, x, b = node.left, node.comparators[0], node.comparators[1]
+            return ast.BoolOp(op=ast.And(), values=[ast.Compare(left=a, ops=[node.ops[0]], comparators=[x]), ast.Compare(left=copy.deepcopy(x), ops=[node.ops[1]], comparators=[b])])
+        return node
+
+
+def _ends_in_jump(body):
+    return bool(body) and isinstance(body[-1], (ast.Return, ast.Raise, ast.Continue, ast.Break))
+
+
+class ElseWrap(ast.NodeTransformer):
+    """if c: ...; return A   followed by REST   ->   if c: ...; return A  else: REST"""
+
+    def _block(self, body):
+        out = []
+        for i, st in enumerate(body):
+            if isinstance(st, ast.If) and not st.orelse and _ends_in_jump(st.body) and i + 1 < len(body):
+                st.orelse = self._block(body[i + 1:])
+                out.append(st)
+                return out
+            out.append(st)
+        return out
+
+    def generic_visit(self, node):
+        super().generic_visit(node)
+        for f in ("body", "orelse", "finalbody"):
+            b = getattr(node, f, None)
+            if isinstance(b, list) and b and isinstance(b[0], ast.stmt):
+                setattr(node, f, self._block(b))
+        return node
+
+
+class ElseUnwrap(ast.NodeTransformer):
+    """if c: ...; return A  else: REST   ->   if c: ...; return A   followed by REST"""
+
+    def _block(self, body):
+        out = []
+        for st in body:
+            if isinstance(st, ast.If) and st.orelse and _ends_in_jump(st.body) and not (len(st.orelse) == 1 and isinstance(st.orelse[0], ast.If) and False):
+                rest = st.orelse
+                st.orelse = []
+                out.append(st)
+                out.extend(self._block(rest))
+            else:
+                out.append(st)
+        return out
+
+    def generic_visit(self, node):
+        super().generic_visit(node)
+        for f in ("body", "orelse", "finalbody"):
+            b = getattr(node, f, None)
+            if isinstance(b, list) and b and isinstance(b[0], ast.stmt):
+                setattr(node, f, self._block(b))
+        return node
 
 
 FLIP = {ast.Lt: ast.Gt, ast.Gt: ast.Lt, ast.LtE: ast.GtE, ast.GtE: ast.LtE, ast.Eq: ast.Eq, ast.NotEq: ast.NotEq}
@@ -152,6 +262,11 @@ TRANSFORMS = {
     "T3-rename-locals": RenameLocals,
     "T4-return-temp": ReturnTemp,
     "T5-if-swap": IfSwap,
+    "T6-add-swap": AddSwap,
+    "T7-shape-len": ShapeLen,
+    "T8-chain-split": ChainSplit,
+    "T9-else-wrap": ElseWrap,
+    "T10-else-unwrap": ElseUnwrap,
 }
 
 
